@@ -12,13 +12,15 @@ package announce
 
 // Data-structure invariant of a Receiver built by NewReceiver: the done
 // channel exists and is closed only once the receiver is marked closed.
-//@ spec func recvOK(r val) bool = r != nil && r.done != nil && lruOK(r.announceCache) && (closed(r.done) ==> r.closed) && r.outChan != nil && !closed(r.outChan)
+//@ spec func recvOK(r val) bool = r != nil && r.done != nil && lruOK(r.announceCache) && (closed(r.done) ==> r.closed) && r.outChan != nil && !closed(r.outChan) && r.done != r.outChan
 
 // Close: idempotent; every return leaves the mutex as it found it (implicit
 // balance obligation); close(done) at most once.
 //@ func (*Receiver).Close
 //@   property C16
 //@   requires recvOK(r) && !held(r.announceMutex)
+//@   modifies r.closed, closedflag(r.done)
+//@   ensures recvOK(r) && r.closed
 //@   requires r.cancelWatch != nil ==> r.watchDone != nil
 //@   requires r.cancelPubsub != nil ==> r.topic != nil
 //@   mayblock recv:watchDone
@@ -28,6 +30,7 @@ package announce
 
 //@ func (*Receiver).Next
 //@   property C16
+//@   pure
 //@   requires recvOK(r) && ctx != nil
 //@   shutdown done
 
